@@ -10,6 +10,20 @@ for l in open(os.path.join(VERIF, "properties.jsonl")):
 
 # id -> (category, technique, text, note, design_ref)
 CLAIMED = {
+    "C05": ("proof",
+            "Lean 4 theorems (view offset arithmetic = encoding layout; scope skipping; exact-key lookup; merge keeps fields) + correspondence + view-vs-memory predicate",
+            "Props/C05.lean proves for every unsigned transaction, every pair list and every stream prefix/suffix: the counts and "
+            "offsets GlobalTransactionView computes (1/3/5/9-byte prefixes), vin(i) / vout(j) by 41-byte strides and output "
+            "skipping, locktime and version equal the transaction's; _skip_scope moves exactly over one scope; a value lookup "
+            "returns what is stored under exactly that key; update() never drops a field the scope had and an empty extra scope "
+            "changes nothing; clear_metadata keeps signatures, final scripts and tx fields in every mode. Each run opens "
+            "generated PSBTs through PSBTView at random stream offsets in all three modes and compares everything it reports and "
+            "writes (with extra signature/derivation streams) with the Lean model and, independently, with the fully parsed "
+            "in-memory PSBT (merge-then-compress). Partial: the composed statements view_refines_parse / write_to_eq_memory are "
+            "GOALs decided by the view-vs-memory predicate and correspondence only; 'same signatures' is covered in C02.",
+            "Trusted: Lean kernel + propext/Quot.sound/Classical.choice; harness generators; BytesIO seek/read semantics as "
+            "modelled (seek past the end allowed).",
+            "§5 C05"),
     "C06": ("proof",
             "Lean 4 theorems (streamed reader = parse-then-project; verify only on hash match; verified utxo = previous output; altered prev tx = SHA-256d collision) + correspondence",
             "Props/C06.lean proves for every byte string/scope and every hash function: Transaction.read_vout (memory-saving mode) "
